@@ -56,6 +56,8 @@ def plan(tier, seed):
     for c in range(4):
         shards.append(("jsonpars", c, 4))
     shards.append(("longlists",))
+    shards.append(("bigtext",))
+    shards.append(("indexerpars",))
     k = seed % len(shards)
     return shards[k:] + shards[:k]
 
@@ -351,6 +353,77 @@ def _run_jsonpars(desc):
     return sh
 
 
+def _run_bigtext(desc):
+    """text columnfiles whose number of rows sits on and around the block sizes a writer might use (1, 255..257, 1023..1025, 2048, 4096,
+    5000): same number of rows, same values (to the documented precision), two cycles"""
+    from ImageD11 import columnfile as C
+    sh = Shard()
+    wd = workdir("bt")
+    try:
+        for n in (1, 2, 255, 256, 257, 1023, 1024, 1025, 2048, 4096, 5000):
+            cols = {"sc": (np.arange(n) * 0.37 + 1.0), "Number_of_pixels": np.arange(n, dtype=float) % 97, "foo": np.arange(n) * 1e-3 - 2.0}
+            cf = C.colfile_from_dict({k_: v.copy() for k_, v in cols.items()})
+            case = {"kind": "bigtext", "nrows": n}
+            f = os.path.join(wd, "a.flt")
+            cf.writefile(f)
+            with contextlib.redirect_stdout(io.StringIO()):
+                rd = C.columnfile(f)
+            rd.writefile(os.path.join(wd, "b.flt"))
+            with contextlib.redirect_stdout(io.StringIO()):
+                rd2 = C.columnfile(os.path.join(wd, "b.flt"))
+            for which, r_ in (("first", rd), ("second", rd2)):
+                if r_.nrows != n or list(r_.titles) != list(cols):
+                    sh.violation("text:number-of-rows", dict(case, cycle=which), {"read": int(r_.nrows), "written": n})
+                    break
+                if any(not np.array_equal(r_.getcolumn(t), np.array([float(DOCUMENTED[t] % v) for v in cols[t]])) for t in cols):
+                    sh.violation("text:value-not-printed-precision", dict(case, cycle=which), {})
+                    break
+            sh.evaluations += 1
+            sh.nontrivial += 1
+        sh.sample(case, limit=1)
+        sh.outcomes.add("bigtext")
+    finally:
+        shutil.rmtree(wd, ignore_errors=True)
+    return sh
+
+
+def _run_indexerpars(desc):
+    """parameter files through the indexer (indexer.loadpars / savepars, as the GUI and scripts do): what was loaded is what is saved -
+    for the names the indexer uses itself and for the ones it only carries along (cell, geometry, free text)"""
+    from ImageD11 import indexing, parameters as P
+    sh = Shard()
+    wd = workdir("ip")
+    indexing.loglevel = 4
+    try:
+        pools = [{"cell__a": 4.04, "cell__b": 4.04, "cell__c": 4.04, "cell_alpha": 90.0, "cell_beta": 90.0, "cell_gamma": 90.0, "cell_lattice_[P,A,B,C,I,F,R]": "F"},
+                 {"distance": 151234.5, "o11": 1, "o12": 0, "wavelength": 0.2846, "label": "sample_A"},
+                 {"minpks": 27, "hkl_tol": 0.03, "ds_tol": 0.004, "cosine_tol": 0.001, "uniqueness": 0.4, "max_grains": 17, "ring_1": 2, "ring_2": 3, "eta_range": 5.0}]
+        for bits in range(1, 8):
+            d = {}
+            for k_ in range(3):
+                if (bits >> k_) & 1:
+                    d.update(pools[k_])
+            case = {"kind": "indexerpars", "names": sorted(d)}
+            f1, f2 = os.path.join(wd, "in.par"), os.path.join(wd, "out.par")
+            P.parameters(**d).saveparameters(f1)
+            with contextlib.redirect_stdout(io.StringIO()):
+                ind = indexing.indexer()
+                ind.loadpars(f1)
+                ind.savepars(f2)
+            got = P.read_par_file(f2).get_parameters()
+            bad = [k_ for k_, v in d.items() if k_ not in got or type(got[k_]) != type(v) or got[k_] != v]
+            if bad:
+                sh.violation("indexer.loadpars+savepars:value-type-or-name", dict(case, name=bad[0]), {"read": repr(got.get(bad[0])), "written": repr(d[bad[0]])})
+            sh.evaluations += 1
+            sh.nontrivial += 1
+        sh.sample(case, limit=1)
+        sh.outcomes.add("indexerpars")
+    finally:
+        indexing.loglevel = 4
+        shutil.rmtree(wd, ignore_errors=True)
+    return sh
+
+
 def _run_longlists(desc):
     """grain lists longer than one decimal digit of positions (9..12, 25, 101, 112 grains): same order, same content, text and HDF5,
     two save/load cycles"""
@@ -593,7 +666,7 @@ def _run_sparse(desc):
 
 def run_shard(desc):
     return {"colfile": _run_colfile, "hdf_overwrite": _run_hdf_overwrite, "pars": _run_pars, "grains": _run_grains,
-            "sparse": _run_sparse, "parvalues": _run_parvalues, "jsonpars": _run_jsonpars, "longlists": _run_longlists}[desc[0]](desc)
+            "sparse": _run_sparse, "parvalues": _run_parvalues, "jsonpars": _run_jsonpars, "bigtext": _run_bigtext, "indexerpars": _run_indexerpars, "longlists": _run_longlists}[desc[0]](desc)
 
 
 def replay(case):
@@ -617,6 +690,12 @@ def replay(case):
     elif kind == "parvalues":
         r = _run_parvalues(("parvalues",))
         r.violations = [v for v in r.violations if v["case"]["values"] == case["values"]]
+    elif kind == "bigtext":
+        r = _run_bigtext(("bigtext",))
+        r.violations = [v for v in r.violations if v["case"]["nrows"] == case["nrows"]]
+    elif kind == "indexerpars":
+        r = _run_indexerpars(("indexerpars",))
+        r.violations = [v for v in r.violations if v["case"]["names"] == case["names"]]
     elif kind == "jsonpars":
         r = _run_jsonpars(("jsonpars", 0, 1))
         r.violations = [v for v in r.violations if v["case"]["names"] == case["names"]]
